@@ -235,8 +235,14 @@ func runCase(c Case) *pt.Failure {
 					}
 				}
 			}
-			if known && n != 1 {
-				return pt.Failf("C15/manager-invocations", "manager invoked %d times for request %+v", n, q)
+			same := 0 // requests for this (kind, branch id): a coordinator re-sends with a new message id
+			for _, o := range c.Reqs {
+				if o.Rollback == q.Rollback && o.BranchID == q.BranchID {
+					same++
+				}
+			}
+			if known && n != same {
+				return pt.Failf("C15/manager-invocations", "manager invoked %d times for %d request(s) like %+v", n, same, q)
 			}
 			if !known && n != 0 {
 				return pt.Failf("C15/unknown-type-routed", "request with unknown branch type %d reached a manager", q.BranchType)
@@ -326,6 +332,21 @@ func drawCase(t *rapid.T) Case {
 		usedB[key(q.Rollback, q.BranchID)] = true
 		usedM[q.MsgID] = true
 		c.Reqs = append(c.Reqs, q)
+		// the coordinator sends a request again (new message id) while the first one is still being
+		// worked on: both must be answered
+		if rapid.IntRange(0, 5).Draw(t, "resend") == 0 {
+			r := q
+			r.MsgID = q.MsgID ^ 0x5a5a5a
+			if !usedM[r.MsgID] {
+				usedM[r.MsgID] = true
+				c.Reqs[len(c.Reqs)-1].DelayMs = 5
+				r.DelayMs = 5
+				c.Reqs = append(c.Reqs, r)
+				if c.InFlight < 2 {
+					c.InFlight = 2
+				}
+			}
+		}
 	}
 	return c
 }
